@@ -7,9 +7,25 @@ From EvyV Require Import Base Num Ast Omap OmapProofs Sem Static.
 Import ListNotations.
 Open Scope Z_scope.
 
+(* the host crashes that are the exhaustion of the host stack by a value that contains itself *)
+Definition overflow_reason (w : str) : Prop :=
+  w = s_ "stack overflow in String" \/ w = s_ "stack overflow in Equals" \/
+  w = s_ "stack overflow in deepCopy" \/ w = s_ "stack overflow in same".
+
+(* The whole development is parametrised by [strict]:
+   strict = true  : `any` never occurs inside a composite type; then values are as deep as their
+                    types and NO run ends in an internal error or a host crash;
+   strict = false : every value type; the only host crash left is the stack overflow on a cyclic value. *)
+Section Sound.
+Context (strict : bool).
+
 (* ---------- outcomes that are not "going wrong" ---------- *)
 Definition safe_err (e : err) : Prop :=
-  match e with EInternal _ | EHostCrash _ => False | _ => True end.
+  match e with
+  | EInternal _ => False
+  | EHostCrash w => strict = false /\ overflow_reason w
+  | _ => True
+  end.
 
 Definition wp {A} (r : res A * state) (Q : A -> state -> Prop) : Prop :=
   match r with (Ok a, s') => Q a s' | (Er er, _) => safe_err er end.
@@ -39,14 +55,15 @@ Lemma ext_refl S : ext S S. Proof. intros l t H; exact H. Qed.
 Lemma ext_trans S1 S2 S3 : ext S1 S2 -> ext S2 S3 -> ext S1 S3.
 Proof. intros H1 H2 l t H; auto. Qed.
 
-(* dynamic types of the Stage-1 fragment *)
-Definition ty_ok1 (t : ty) : bool := (ty_s1 t || is_none t) && ty_small t.
+(* dynamic types: strict: `any` only at the top and bounded nesting; otherwise every value type *)
+Definition ty_ok1 (t : ty) : bool :=
+  if strict then (ty_s1 t || is_none t) && ty_small t else ty_value t || is_none t.
 
 Inductive cell_ok (S : sty) : hval -> ty -> Prop :=
 | CNum f : cell_ok S (HNum f) TNum
 | CStr x : cell_ok S (HStr x) TStr
 | CBool b : cell_ok S (HBool b) TBool
-| CAny u i : ty_s1in u = true -> sfind S i = Some u -> cell_ok S (HAny u i) TAny
+| CAny u i : u <> TAny -> u <> TNone -> sfind S i = Some u -> cell_ok S (HAny u i) TAny
 | CArr u els : Forall (fun i => sfind S i = Some u) els -> cell_ok S (HArr els) (TArr u)
 | CEmpty : cell_ok S (HArr []) TEmptyArr
 | CMap u m : Inv m -> Forall (fun kv => sfind S (snd kv) = Some u) (pairs m) -> cell_ok S (HMap m) (TMap u)
@@ -243,14 +260,64 @@ Ltac hdone S' :=
 Lemma ty_s1in_not_none t : ty_s1in t = true -> t <> TNone.
 Proof. intros H E; subst; discriminate. Qed.
 
-Lemma ty_s1in_ok1 t : ty_s1in t = true -> ty_small t = true -> ty_ok1 t = true.
+Lemma ty_s1in_value t : ty_s1in t = true -> ty_value t = true.
+Proof. induction t; simpl; auto; discriminate. Qed.
+
+Lemma ty_value_not_none t : ty_value t = true -> t <> TNone.
+Proof. intros H E; subst; discriminate. Qed.
+
+Ltac ok1t := unfold ty_ok1; case strict; reflexivity.
+
+Lemma ok1_TNum : ty_ok1 TNum = true. Proof. ok1t. Qed.
+Lemma ok1_TStr : ty_ok1 TStr = true. Proof. ok1t. Qed.
+Lemma ok1_TBool : ty_ok1 TBool = true. Proof. ok1t. Qed.
+Lemma ok1_TAny : ty_ok1 TAny = true. Proof. ok1t. Qed.
+Lemma ok1_TNone : ty_ok1 TNone = true. Proof. ok1t. Qed.
+Lemma ok1_TEmptyArr : ty_ok1 TEmptyArr = true. Proof. ok1t. Qed.
+Lemma ok1_TEmptyMap : ty_ok1 TEmptyMap = true. Proof. ok1t. Qed.
+Hint Resolve ok1_TNum ok1_TStr ok1_TBool ok1_TAny ok1_TNone ok1_TEmptyArr ok1_TEmptyMap : core.
+
+Lemma ok1_small t : strict = true -> ty_ok1 t = true -> ty_small t = true.
+Proof. unfold ty_ok1. intros ->. intros H; apply andb_true_iff in H; tauto. Qed.
+
+Lemma ok1_dyn t : ty_ok1 t = true -> ty_value t = true \/ t = TNone.
 Proof.
-  intros H1 H2. unfold ty_ok1. rewrite H2, andb_true_r. apply orb_true_iff; left.
-  destruct t; simpl in *; auto; discriminate.
+  unfold ty_ok1. destruct strict; intros H.
+  - apply andb_true_iff in H as [H _]. apply orb_true_iff in H as [H|H].
+    + left. destruct t; simpl in *; auto using ty_s1in_value; discriminate.
+    + right. destruct t; simpl in *; auto; discriminate.
+  - apply orb_true_iff in H as [H|H]; auto. right. destruct t; simpl in *; auto; discriminate.
 Qed.
 
-Lemma ok1_small t : ty_ok1 t = true -> ty_small t = true.
-Proof. unfold ty_ok1. intros H; apply andb_true_iff in H; tauto. Qed.
+Lemma ok1_s1in t : strict = true -> ty_ok1 t = true -> t <> TAny -> t <> TNone -> ty_s1in t = true.
+Proof.
+  unfold ty_ok1. intros -> H N1 N2. apply andb_true_iff in H as [H _]. apply orb_true_iff in H as [H|H].
+  - destruct t; simpl in *; auto; congruence.
+  - destruct t; simpl in *; try discriminate; congruence.
+Qed.
+
+Lemma ok1_elem t u : (t = TArr u \/ t = TMap u) -> ty_ok1 t = true -> ty_ok1 u = true /\ u <> TNone.
+Proof.
+  unfold ty_ok1, ty_small. intros Ht H. destruct strict.
+  - apply andb_true_iff in H as [H1 H2]. apply Nat.leb_le in H2.
+    assert (ty_s1in u = true /\ (ty_depth u <= max_ty_depth)%nat) as [Hs Hd].
+    { destruct Ht as [->| ->]; simpl in *; rewrite orb_false_r in H1; split; auto; lia. }
+    split; [|intros ->; discriminate].
+    apply andb_true_iff; split; [|apply Nat.leb_le; auto].
+    apply orb_true_iff; left. destruct u; simpl in *; auto; discriminate.
+  - assert (ty_value u = true) by (destruct Ht as [->| ->]; simpl in *; rewrite orb_false_r in H; auto).
+    split; [apply orb_true_iff; auto|auto using ty_value_not_none].
+Qed.
+
+Lemma ty_ann_fr_ok1 t : ty_ann t = true -> fr_tyin strict t = true -> ty_ok1 t = true.
+Proof.
+  unfold ty_ann, ty_ok1, fr_tyin. intros H1 H2. apply andb_true_iff in H1 as [H0 H1]. destruct strict.
+  - rewrite H1, andb_true_r. apply orb_true_iff; left. destruct t; simpl in *; auto; discriminate.
+  - apply orb_true_iff; auto.
+Qed.
+
+Lemma fr_tyin_elem t u : (t = TArr u \/ t = TMap u) -> fr_tyin strict t = true -> fr_tyin strict u = true.
+Proof. unfold fr_tyin. destruct strict; auto. intros [->| ->]; auto. Qed.
 
 Lemma copy_or_ref_wp d : forall S s l t,
   heap_ok S (st_heap s) -> sfind S l = Some t -> t <> TNone ->
@@ -267,10 +334,10 @@ Proof.
     exists S'; auto.
   - eapply wp_mono; [eapply alloc_wp; eauto|]. cbv beta. intros l' s' (S' & E & H1 & H2 & H3).
     exists S'; auto.
-  - wbind ltac:(eapply (IH S s i u); eauto using ty_s1in_not_none).
+  - wbind ltac:(eapply (IH S s i u); eauto).
     intros i' s1 (S1 & E1 & Hh1 & Hg1 & Hi1).
     eapply wp_mono; [eapply alloc_wp with (t := TAny); eauto; constructor; eauto|]. cbv beta.
-    intros l' s' (S' & E & H1 & H2 & H3).
+    intros l' s' (S' & E & Hx1 & Hx2 & Hx3).
     hdone S'.
   - apply wp_ret. hdone S.
   - apply wp_ret. hdone S.
@@ -312,42 +379,63 @@ Definition deep_ok (t : ty) (d : nat) : Prop :=
 Lemma ty_small_le t : ty_small t = true -> (ty_depth t <= max_ty_depth)%nat.
 Proof. unfold ty_small. apply Nat.leb_le. Qed.
 
+Lemma strict_cases : strict = true \/ strict = false.
+Proof. case strict; auto. Qed.
+
+Lemma deep_ok_elem t u d :
+  (t = TArr u \/ t = TMap u) -> (strict = true -> deep_ok t (S d)) -> strict = true -> deep_ok u d.
+Proof.
+  intros Ht H Hs. destruct (H Hs) as [[Hx _]|[[Hx|Hx] Hy]]; destruct Ht; subst; try discriminate;
+    (right; split; [left; exact Hx|simpl in Hy; lia]).
+Qed.
+
+Lemma deep_ok_any St h i u d :
+  heap_ok St h -> sfind St i = Some u -> u <> TAny -> u <> TNone ->
+  (strict = true -> deep_ok TAny (S d)) -> strict = true -> deep_ok u d.
+Proof.
+  intros Hh Hi N1 N2 H Hs. pose proof (ho_tys _ _ Hh _ _ Hi) as Hok.
+  right; split; [left; eauto using ok1_s1in|].
+  pose proof (ty_small_le _ (ok1_small _ Hs Hok)).
+  destruct (H Hs) as [[_ Hx]|[[Hx|Hx] _]]; try discriminate. lia.
+Qed.
+
+Lemma overflow_wp {A} (w : string) s (Q : A -> state -> Prop) d t :
+  overflow_reason (s_ w) -> (strict = true -> deep_ok t d) -> d = O -> wp (crash w s) Q.
+Proof.
+  intros Hw Hd ->. unfold crash, fail, wp, safe_err. destruct strict_cases as [Es|Es].
+  - destruct (Hd Es) as [[_ H]|[_ H]]; lia.
+  - auto.
+Qed.
+
 Lemma show_wp d : forall S s r l t,
-  heap_ok S (st_heap s) -> sfind S l = Some t -> deep_ok t d ->
+  heap_ok S (st_heap s) -> sfind S l = Some t -> (strict = true -> deep_ok t d) ->
   wp (show d r l s) (fun _ s' => s' = s).
 Proof.
   induction d as [|d IH]; intros S s r l t Hh Hl Hd.
-  { destruct Hd as [[_ H]|[_ H]]; lia. }
+  { cbn [show]. eapply overflow_wp; eauto. left; reflexivity. }
   cbn [show].
   wbind ltac:(eapply load_wp; eauto). intros v s' [-> Hc].
   inversion Hc; subst.
   - reflexivity.
   - destruct r; [|reflexivity]. destruct (go_quote x); [reflexivity|exact I].
   - reflexivity.
-  - eapply IH; eauto. right. split; [left; assumption|].
-    destruct Hd as [[_ Hx]|[[Hx|Hx] _]]; try discriminate.
-    match goal with Hi : sfind S i = Some u |- _ =>
-      pose proof (ty_small_le _ (ok1_small _ (ho_tys _ _ Hh _ _ Hi))) end. lia.
+  - eapply IH; eauto using deep_ok_any.
   - wbind ltac:(apply mapM_pure). 2:{ intros; subst; reflexivity. }
     intros a Ha.
     match goal with Hf : Forall _ els |- _ => rewrite Forall_forall in Hf; specialize (Hf a Ha) end.
-    eapply IH; eauto.
-    destruct Hd as [[Hx _]|[[Hx|Hx] Hy]]; try discriminate.
-    right; split; [left; exact Hx|]. simpl in Hy. lia.
+    eapply IH; eauto using deep_ok_elem.
   - reflexivity.
   - (* map *)
     wbind ltac:(apply mapM_pure). 2:{ intros; subst; reflexivity. }
     intros k Hk.
     match goal with HI : Inv m |- _ => destruct (map_order_has m k HI Hk) as (i & Hi) end. rewrite Hi.
-    wbind ltac:(eapply IH; eauto using map_entry_typed). 2:{ intros; subst; reflexivity. }
-    destruct Hd as [[Hx _]|[[Hx|Hx] Hy]]; try discriminate.
-    right; split; [left; exact Hx|]. simpl in Hy. lia.
+    wbind ltac:(eapply IH; eauto using map_entry_typed, deep_ok_elem). intros; subst; reflexivity.
   - match goal with Ho : order m = [] |- _ => rewrite Ho end. reflexivity.
   - reflexivity.
 Qed.
 
 Lemma shape_compat t u :
-  ty_s1in t = true -> ty_s1in u = true -> ty_eqb (ty_shape t) (ty_shape u) = true -> ty_compat t u = true.
+  ty_value t = true -> ty_value u = true -> ty_eqb (ty_shape t) (ty_shape u) = true -> ty_compat t u = true.
 Proof.
   revert u; induction t; intros u Ht Hu H; destruct u; simpl in *; try discriminate; auto.
 Qed.
@@ -392,32 +480,26 @@ End EqMapGo.
 
 Lemma equals_wp d : forall S s a b ta tb,
   heap_ok S (st_heap s) -> sfind S a = Some ta -> sfind S b = Some tb ->
-  ty_compat ta tb = true -> deep_ok ta d -> deep_ok tb d ->
+  ty_compat ta tb = true -> (strict = true -> deep_ok ta d) -> (strict = true -> deep_ok tb d) ->
   wp (equals d a b s) (fun _ s' => s' = s).
 Proof.
   induction d as [|d IH]; intros S s a b ta tb Hh Ha Hb Hc Hda Hdb.
-  { destruct Hda as [[_ H]|[_ H]]; lia. }
+  { cbn [equals]. eapply overflow_wp; eauto. right; left; reflexivity. }
   cbn [equals].
   wbind ltac:(eapply load_wp; eauto). intros va s' [-> Hva].
   wbind ltac:(eapply load_wp; eauto). intros vb s' [-> Hvb].
-  assert (SM : forall i u, sfind S i = Some u -> (ty_depth u <= max_ty_depth)%nat).
-  { intros i u Hi. apply ty_small_le, ok1_small. eapply ho_tys; eauto. }
+  assert (VAL : forall i u, sfind S i = Some u -> u <> TNone -> ty_value u = true).
+  { intros i u Hi Hn. destruct (ok1_dyn _ (ho_tys _ _ Hh _ _ Hi)); congruence. }
   inversion Hva; subst; inversion Hvb; subst; simpl in Hc; try discriminate; try reflexivity.
   - (* any / any *)
     destruct (ty_eqb (ty_shape u) (ty_shape u0)) eqn:Hs; [|reflexivity].
-    eapply IH; eauto using shape_compat.
-    + right; split; [left; assumption|].
-      destruct Hda as [[_ Hx]|[[Hx|Hx] _]]; try discriminate. pose proof (SM _ _ H0). lia.
-    + right; split; [left; assumption|].
-      destruct Hdb as [[_ Hx]|[[Hx|Hx] _]]; try discriminate. pose proof (SM _ _ H2). lia.
+    eapply IH; eauto using shape_compat, deep_ok_any.
   - (* arr / arr *)
     destruct (negb (Nat.eqb (List.length els) (List.length els0))); [reflexivity|].
     apply eq_go_pure. intros x y Hx Hy.
-    rewrite Forall_forall in H, H0.
-    destruct Hda as [[Hx0 _]|[[Hx0|Hx0] Hx1]]; try discriminate.
-    destruct Hdb as [[Hy0 _]|[[Hy0|Hy0] Hy1]]; try discriminate.
-    simpl in *.
-    eapply IH; eauto; right; (split; [left; assumption|lia]).
+    match goal with H1 : Forall _ els, H2 : Forall _ els0 |- _ => rewrite Forall_forall in H1, H2;
+      pose proof (H1 _ Hx); pose proof (H2 _ Hy) end.
+    eapply IH; eauto using deep_ok_elem.
   - (* arr / empty *)
     destruct (negb (Nat.eqb (List.length els) (List.length (@nil loc)))); [reflexivity|].
     apply eq_go_pure. intros x y Hx [].
@@ -426,12 +508,9 @@ Proof.
   - (* map / map *)
     match goal with |- context [if ?c then _ else _] => destruct c; [reflexivity|] end.
     apply eq_mgo_pure. intros k i j Hin Hj.
-    destruct Hda as [[Hx0 _]|[[Hx0|Hx0] Hx1]]; try discriminate.
-    destruct Hdb as [[Hy0 _]|[[Hy0|Hy0] Hy1]]; try discriminate.
-    simpl in *.
     match goal with HF : Forall _ (pairs m) |- _ => rewrite Forall_forall in HF; pose proof (HF _ Hin) as Hti end.
     simpl in Hti.
-    eapply IH; eauto using map_entry_typed; right; (split; [left; assumption|lia]).
+    eapply IH; eauto using map_entry_typed, deep_ok_elem.
   - (* map / empty map *)
     match goal with |- context [if ?c then _ else _] => destruct c; [reflexivity|] end.
     apply eq_mgo_pure. intros k i j Hin Hj.
@@ -444,36 +523,47 @@ Proof.
     match goal with Hp : pairs m = [] |- _ => rewrite Hp end. reflexivity.
 Qed.
 
+(* deepCopy: [dc_ok t d]: in the strict fragment the copy of a value of type t needs at most d levels *)
+Definition dc_ok (t : ty) (d : nat) : Prop := strict = true -> deep_ok t d.
+
 Lemma deep_copy_wp d : forall S s l t,
-  heap_ok S (st_heap s) -> sfind S l = Some t -> ty_s1in t = true -> (ty_depth t < d)%nat ->
+  heap_ok S (st_heap s) -> sfind S l = Some t -> t <> TNone -> dc_ok t d ->
   wp (deep_copy d l s) (hpost S (st_globals s) (fun S' l' => sfind S' l' = Some t)).
 Proof.
-  induction d as [|d IH]; intros S s l t Hh Hl Ht Hd; [lia|].
+  induction d as [|d IH]; intros S s l t Hh Hl Hn Hd.
+  { cbn [deep_copy]. eapply overflow_wp; eauto. right; right; left; reflexivity. }
   cbn [deep_copy].
   wbind ltac:(eapply load_wp; eauto). intros v s' [-> Hc].
   pose proof (ho_tys _ _ Hh _ _ Hl) as Hok.
-  inversion Hc; subst; try discriminate.
-  - eapply wp_mono; [eapply alloc_wp; eauto|]. cbv beta. intros l' s' (S' & E & H1 & H2 & H3).
+  inversion Hc; subst; try congruence.
+  - eapply wp_mono; [eapply alloc_wp; eauto|]. cbv beta. intros l' s' (S' & E & Hx1 & Hx2 & Hx3).
     exists S'; auto.
-  - eapply wp_mono; [eapply alloc_wp; eauto|]. cbv beta. intros l' s' (S' & E & H1 & H2 & H3).
+  - eapply wp_mono; [eapply alloc_wp; eauto|]. cbv beta. intros l' s' (S' & E & Hx1 & Hx2 & Hx3).
     exists S'; auto.
-  - eapply wp_mono; [eapply alloc_wp; eauto|]. cbv beta. intros l' s' (S' & E & H1 & H2 & H3).
+  - eapply wp_mono; [eapply alloc_wp; eauto|]. cbv beta. intros l' s' (S' & E & Hx1 & Hx2 & Hx3).
     exists S'; auto.
-  - simpl in Ht, Hd.
+  - (* any *)
+    wbind ltac:(eapply (IH S s i u); eauto; unfold dc_ok in *; eauto using deep_ok_any).
+    intros i' s1 (S1 & E1 & Hh1 & Hg1 & Hi1).
+    eapply wp_mono; [eapply alloc_wp with (t := TAny); eauto; constructor; eauto|]. cbv beta.
+    intros l' s' (S' & E & Hx1 & Hx2 & Hx3). hdone S'.
+  - (* array *)
+    destruct (ok1_elem (TArr u) u (or_introl eq_refl) Hok) as [Hoku Hnu].
     wbind ltac:(eapply (mapM_wp (deep_copy d) (fun S a => sfind S a = Some u)
                           (fun S a b => sfind S b = Some u) (st_globals s)); eauto).
-    1:{ intros S0 s0 a Hh0 Hg0 Ha. rewrite <- Hg0. eapply IH; eauto. lia. }
+    1:{ intros S0 s0 a Hh0 Hg0 Ha. rewrite <- Hg0. eapply IH; eauto.
+        unfold dc_ok in *; eauto using deep_ok_elem. }
     intros els' s1 (S1 & E1 & Hh1 & Hg1 & Hr1).
     eapply wp_mono; [eapply alloc_wp with (t := TArr u) (S := S1); eauto|].
     { constructor. clear -Hr1. induction Hr1; constructor; auto. }
-    cbv beta. intros l' s' (S' & E & H1 & H2 & H3).
+    cbv beta. intros l' s' (S' & E & Hx1 & Hx2 & Hx3).
     hdone S'.
   - cbn [mapM]. unfold bindM at 1. cbn [ret].
     eapply wp_mono; [eapply alloc_wp with (t := TEmptyArr); eauto; constructor|].
-    cbv beta. intros l' s' (S' & E & H1 & H2 & H3).
+    cbv beta. intros l' s' (S' & E & Hx1 & Hx2 & Hx3).
     exists S'; auto.
   - (* map *)
-    simpl in Ht, Hd.
+    destruct (ok1_elem (TMap u) u (or_intror eq_refl) Hok) as [Hoku Hnu].
     match goal with HI : Inv m, HF : Forall _ (pairs m) |- _ => rename HI into HInv; rename HF into HFm end.
     wbind ltac:(eapply (mapM_wp
         (fun k => match plookup k (pairs m) with
@@ -485,7 +575,7 @@ Proof.
     + intros S1 S2 k E12 (i & H1 & H2). eauto.
     + intros S1 S2 k kv E12 [H1 H2]. auto.
     + intros S0 s0 k Hh0 Hg0 (i & Hi & Hti). rewrite Hi.
-      wbind ltac:(eapply (IH S0 s0 i u); eauto; lia).
+      wbind ltac:(eapply (IH S0 s0 i u); eauto; unfold dc_ok in *; eauto using deep_ok_elem).
       intros i' s1 (S1 & E1 & Hh1 & Hg1 & Hi1). apply wp_ret. hdone S1.
     + rewrite Forall_forall. intros k Hk. destruct (map_order_has m k HInv Hk) as (i & Hi).
       eauto using map_entry_typed.
@@ -496,11 +586,11 @@ Proof.
       eapply wp_mono; [eapply alloc_wp with (t := TMap u) (S := S1); eauto|].
       { constructor; simpl; auto. destruct HInv as (N1 & _ & _).
         unfold Inv, keys; simpl. rewrite Hk1. repeat split; auto. }
-      cbv beta. intros l' s' (S' & E & H1 & H2 & H3). hdone S'.
+      cbv beta. intros l' s' (S' & E & Hx1 & Hx2 & Hx3). hdone S'.
   - match goal with Ho : order m = [] |- _ => rewrite Ho end.
     cbn [mapM]. unfold bindM at 1. cbn [ret].
     eapply wp_mono; [eapply alloc_wp with (t := TEmptyMap); eauto; constructor; auto|].
-    cbv beta. intros l' s' (S' & E & H1 & H2 & H3).
+    cbv beta. intros l' s' (S' & E & Hx1 & Hx2 & Hx3).
     exists S'; auto.
 Qed.
 
@@ -720,21 +810,21 @@ Qed.
 Lemma value_depth_big : (S (S max_ty_depth) < value_depth)%nat.
 Proof. unfold value_depth, max_ty_depth. lia. Qed.
 
-Lemma deep_ok_value S h l t : heap_ok S h -> sfind S l = Some t -> deep_ok t value_depth.
+Lemma deep_ok_of_ok1 t : strict = true -> ty_ok1 t = true -> deep_ok t value_depth.
 Proof.
-  intros Hh Hl. pose proof (ho_tys _ _ Hh _ _ Hl) as Hok. pose proof value_depth_big.
-  unfold ty_ok1 in Hok. apply andb_true_iff in Hok as [H1 H2]. apply ty_small_le in H2.
+  intros Hs Hok. pose proof value_depth_big.
+  unfold ty_ok1 in Hok. rewrite Hs in Hok. apply andb_true_iff in Hok as [H1 H2]. apply ty_small_le in H2.
   destruct t; simpl in H1; try discriminate;
     try (left; split; [reflexivity|lia]);
     try (right; split; [try rewrite orb_false_r in H1; auto|simpl in *; lia]).
 Qed.
 
+Lemma deep_ok_value S h l t : heap_ok S h -> sfind S l = Some t -> strict = true -> deep_ok t value_depth.
+Proof. intros Hh Hl Hs. eapply deep_ok_of_ok1; eauto. eapply ho_tys; eauto. Qed.
+
 (* ---------- inversion of the checker ---------- *)
 Lemma opt_ty_eqb_eq o t : opt_ty_eqb o t = true -> o = Some t.
 Proof. destruct o; simpl; [|discriminate]. intros H; apply ty_eqb_eq in H; congruence. Qed.
-
-Lemma ty_value_not_none t : ty_value t = true -> t <> TNone.
-Proof. intros H E; subst; discriminate. Qed.
 
 Lemma ty_ann_value t : ty_ann t = true -> ty_value t = true.
 Proof. unfold ty_ann; intros H; apply andb_true_iff in H; tauto. Qed.
@@ -793,7 +883,7 @@ Lemma ety_EMap F G t ps : ety F G (EMap t ps) =
       end.
 Proof. reflexivity. Qed.
 
-Lemma s1_expr_EMap t ps : s1_expr (EMap t ps) = ty_s1in t && s1_pairs ps.
+Lemma s1_expr_EMap t ps : s1_expr strict (EMap t ps) = fr_tyin strict t && s1_pairs strict ps.
 Proof. reflexivity. Qed.
 
 Lemma keys_nodup_NoDup l : keys_nodup l = true -> NoDup l.
@@ -802,11 +892,11 @@ Proof.
   apply negb_true_iff in H1. intros Hin. apply mem_str_In in Hin. congruence.
 Qed.
 
-Lemma s1_expr_EArr t es : s1_expr (EArr t es) = ty_s1in t && s1_exprs es.
+Lemma s1_expr_EArr t es : s1_expr strict (EArr t es) = fr_tyin strict t && s1_exprs strict es.
 Proof. reflexivity. Qed.
-Lemma s1_expr_ECall name t args : s1_expr (ECall name t args) = mem_str name s1_builtins && s1_exprs args.
+Lemma s1_expr_ECall name t args : s1_expr strict (ECall name t args) = mem_str name s1_builtins && s1_exprs strict args.
 Proof. reflexivity. Qed.
-Lemma s1_expr_ESlice t l lo hi : s1_expr (ESlice t l lo hi) = ty_s1in t && s1_expr l && s1_opt lo && s1_opt hi.
+Lemma s1_expr_ESlice t l lo hi : s1_expr strict (ESlice t l lo hi) = fr_tyin strict t && s1_expr strict l && s1_opt strict lo && s1_opt strict hi.
 Proof. reflexivity. Qed.
 
 (* ---------- invariant bookkeeping ---------- *)
@@ -835,11 +925,7 @@ Qed.
 Lemma epost_weaken S0 S G e t l s : ext S0 S -> epost S G e t l s -> epost S0 G e t l s.
 Proof. intros E (S' & E' & H). exists S'; split; eauto using ext_trans. Qed.
 
-Lemma ok1_basic : ty_ok1 TNum = true /\ ty_ok1 TStr = true /\ ty_ok1 TBool = true /\ ty_ok1 TAny = true /\ ty_ok1 TNone = true.
-Proof. repeat split; reflexivity. Qed.
 
-Lemma ty_ann_s1in_ok1 t : ty_ann t = true -> ty_s1in t = true -> ty_ok1 t = true.
-Proof. unfold ty_ann. intros H1 H2. apply andb_true_iff in H1 as [_ H1]. auto using ty_s1in_ok1. Qed.
 
 (* ---------- index arithmetic ---------- *)
 Lemma normalize_index_lt f len k : normalize_index f len false = Ok k -> (k < len)%nat.
@@ -1173,17 +1259,17 @@ Definition exprs_post (S : sty) (G : tyenv) (e : env) (ts : list ty) : list loc 
   fun ls s' => exists S', ext S S' /\ inv S' G e s' /\ Forall2 (fun l t => sfind S' l = Some t) ls ts.
 
 Definition expr_sound (n : nat) : Prop := forall P e x G t S s,
-  ety (p_funcs P) G x = Some t -> s1_expr x = true -> genv_ok G -> inv S G e s ->
+  ety (p_funcs P) G x = Some t -> s1_expr strict x = true -> genv_ok G -> inv S G e s ->
   wp (eval_expr n P e x s) (epost S G e t).
 
 Definition exprs_sound (n : nat) : Prop := forall P e es G ts S s,
-  etys (p_funcs P) G es = Some ts -> s1_exprs es = true -> Forall (fun t => t <> TNone) ts ->
+  etys (p_funcs P) G es = Some ts -> s1_exprs strict es = true -> Forall (fun t => t <> TNone) ts ->
   genv_ok G -> inv S G e s ->
   wp (eval_exprs n P e es s) (exprs_post S G e ts).
 
 Definition call_sound (n : nat) : Prop := forall P e name args G sg ts S s,
   lookup_sig (p_funcs P) name = Some sg -> etys (p_funcs P) G args = Some ts ->
-  sig_args_ok sg ts = true -> mem_str name s1_builtins = true -> s1_exprs args = true ->
+  sig_args_ok sg ts = true -> mem_str name s1_builtins = true -> s1_exprs strict args = true ->
   genv_ok G -> inv S G e s ->
   wp (eval_call n P e name args s) (bpost S G e (fs_ret sg)).
 
@@ -1192,15 +1278,15 @@ Definition spost (S : sty) (G G' : tyenv) (e : env) : signal * env -> state -> P
      env_ok S' G'' (full (snd r) s') /\ List.length (snd r) = List.length e /\ (fst r = SigNone -> G'' = G').
 
 Definition stmt_sound (n : nat) : Prop := forall P ret il e st G G' S s,
-  wt_stmt (p_funcs P) ret il G st = Some G' -> s1_stmt st = true -> genv_ok G -> inv S G e s ->
+  wt_stmt (p_funcs P) ret il G st = Some G' -> s1_stmt strict st = true -> genv_ok G -> inv S G e s ->
   wp (exec_stmt n P e st s) (spost S G G' e).
 
 Definition stmts_sound (n : nat) : Prop := forall P ret il e l G G' S s,
-  wt_stmts (p_funcs P) ret il G l = Some G' -> s1_stmts l = true -> genv_ok G -> inv S G e s ->
+  wt_stmts (p_funcs P) ret il G l = Some G' -> s1_stmts strict l = true -> genv_ok G -> inv S G e s ->
   wp (exec_stmts n P e l s) (spost S G G' e).
 
 Definition block_sound (n : nat) : Prop := forall P ret il e l G G' S s,
-  wt_stmts (p_funcs P) ret il G l = Some G' -> s1_stmts l = true -> genv_ok G -> inv S G e s ->
+  wt_stmts (p_funcs P) ret il G l = Some G' -> s1_stmts strict l = true -> genv_ok G -> inv S G e s ->
   wp (exec_block n P e l s) (spost S G G' e).
 
 Definition kpost {A} (S : sty) (G : tyenv) (e : env) : A * env -> state -> Prop :=
@@ -1208,12 +1294,12 @@ Definition kpost {A} (S : sty) (G : tyenv) (e : env) : A * env -> state -> Prop 
 
 Definition cond_sound (n : nat) : Prop := forall P ret il e c body G Gb S s,
   ety (p_funcs P) (push G) c = Some TBool -> wt_stmts (p_funcs P) ret il (push G) body = Some Gb ->
-  s1_expr c = true -> s1_stmts body = true -> genv_ok G -> inv S G e s ->
+  s1_expr strict c = true -> s1_stmts strict body = true -> genv_ok G -> inv S G e s ->
   wp (exec_cond n P e c body s) (kpost S G e).
 
 Definition while_sound (n : nat) : Prop := forall P ret e c body G Gb S s,
   ety (p_funcs P) (push G) c = Some TBool -> wt_stmts (p_funcs P) ret true (push G) body = Some Gb ->
-  s1_expr c = true -> s1_stmts body = true -> genv_ok G -> inv S G e s ->
+  s1_expr strict c = true -> s1_stmts strict body = true -> genv_ok G -> inv S G e s ->
   wp (exec_while n P e c body s) (kpost S G e).
 
 (* the loop variable (None: `for range ...`) and what the ranger yields *)
@@ -1234,7 +1320,7 @@ Definition for_frame (named : option ty) (var : str) (fr0 : sframe) : Prop :=
   end.
 
 Definition for_sound (n : nat) : Prop := forall P ret e var rg body G fr0 named Gb S s,
-  wt_stmts (p_funcs P) ret true (push (fr0 :: G)) body = Some Gb -> s1_stmts body = true ->
+  wt_stmts (p_funcs P) ret true (push (fr0 :: G)) body = Some Gb -> s1_stmts strict body = true ->
   genv_ok (fr0 :: G) -> inv S (fr0 :: G) e s ->
   for_frame named var fr0 -> rg_ok S named rg ->
   wp (exec_for n P e var rg body s) (kpost S (fr0 :: G) e).
@@ -1254,7 +1340,7 @@ Lemma epost_ret S G e t l s : inv S G e s -> sfind S l = Some t -> epost S G e t
 Proof. intros. exists S; auto using ext_refl. Qed.
 
 Lemma assert_shape u t :
-  ty_s1in u = true -> ty_proper t = true -> ty_eqb (ty_shape u) (ty_shape t) = true -> u = t.
+  ty_value u = true -> ty_proper t = true -> ty_eqb (ty_shape u) (ty_shape t) = true -> u = t.
 Proof.
   revert t; induction u; intros t Hu Ht H; destruct t; simpl in *; try discriminate; auto;
     try (f_equal; auto; fail); destruct t; simpl in *; discriminate.
@@ -1318,10 +1404,10 @@ Qed.
 
 Lemma bin_arr_wp S0 S G e s op xs lb ta tb t :
   ext S0 S -> inv S G e s -> bin_ty op ta tb = Some t -> op <> BEq -> op <> BNotEq ->
-  cell_ok S (HArr xs) ta -> sfind S lb = Some tb -> ty_ok1 t = true -> ty_s1in t = true ->
+  cell_ok S (HArr xs) ta -> sfind S lb = Some tb -> ty_ok1 t = true ->
   wp (bin_arr op xs lb s) (epost S0 G e t).
 Proof.
-  intros E0 Hi Ht N1 N2 Hxs Hlb Hok Hs1. pose proof Hi as [Hh He].
+  intros E0 Hi Ht N1 N2 Hxs Hlb Hok. pose proof Hi as [Hh He].
   destruct op; try congruence;
     try (inversion Hxs; subst; simpl in Ht; destruct tb; discriminate).
   - (* + *)
@@ -1329,9 +1415,9 @@ Proof.
     wbind ltac:(eapply load_wp; eauto). intros rv s1 [-> Hrv].
     inversion Hxs; subst; simpl in Ht; destruct tb; try discriminate; inversion Hrv; subst.
     + destruct (ty_eqb u tb) eqn:Eu; [|discriminate]. apply ty_eqb_eq in Eu; subst tb.
-      inversion Ht; subst. eapply concat_wp; eauto. simpl in Hs1. intros ->; discriminate.
-    + inversion Ht; subst. eapply concat_wp; eauto. simpl in Hs1. intros ->; discriminate.
-    + inversion Ht; subst. eapply concat_wp; eauto. simpl in Hs1. intros ->; discriminate.
+      inversion Ht; subst. eapply concat_wp; eauto. eapply ok1_elem; eauto.
+    + inversion Ht; subst. eapply concat_wp; eauto. eapply ok1_elem; eauto.
+    + inversion Ht; subst. eapply concat_wp; eauto. eapply ok1_elem; eauto.
     + inversion Ht; subst. unfold bindM at 1. unfold depth_fuel at 1. cbn [mapM].
       unfold bindM, ret. eapply alloc_epost; eauto; constructor.
   - (* * *)
@@ -1342,9 +1428,7 @@ Proof.
     destruct (n <? 0); [exact I|].
     match goal with |- context [if ?c then _ else _] => destruct c; [exact I|] end.
     unfold bindM at 1. unfold depth_fuel at 1.
-    simpl in Hs1.
-    assert (Hd : (ty_depth u < value_depth)%nat).
-    { pose proof value_depth_big. apply ok1_small, ty_small_le in Hok. simpl in Hok. lia. }
+    destruct (ok1_elem (TArr u) u (or_introl eq_refl) Hok) as [Hoku Hnu].
     wbind ltac:(eapply (mapM_wp (fun _ : unit => mapM (deep_copy value_depth) xs)
                           (fun S _ => Forall (fun l => sfind S l = Some u) xs)
                           (fun S _ b => Forall (fun l => sfind S l = Some u) b) (st_globals s))).
@@ -1354,7 +1438,7 @@ Proof.
       eapply wp_mono.
       * eapply (mapM_wp (deep_copy value_depth) (fun S a => sfind S a = Some u)
                   (fun S a b => sfind S b = Some u) (st_globals s)); eauto.
-        intros S2 s2 a Hh2 Hg2 Ha. rewrite <- Hg2. eapply deep_copy_wp; eauto.
+        intros S2 s2 a Hh2 Hg2 Ha. rewrite <- Hg2. eapply deep_copy_wp; eauto. intros Hs. eauto using deep_ok_of_ok1.
       * cbv beta. intros b s2 (S2 & E2 & Hh2 & Hg2 & HF2). hdone S2. eapply Forall2_out; eauto.
     + exact Hh.
     + reflexivity.
@@ -1376,7 +1460,7 @@ Qed.
 
 Lemma ebin_tail S0 S G e s op la lb ta tb t :
   ext S0 S -> inv S G e s -> sfind S la = Some ta -> sfind S lb = Some tb ->
-  bin_ty op ta tb = Some t -> ty_ok1 t = true -> ty_s1in t = true ->
+  bin_ty op ta tb = Some t -> ty_ok1 t = true ->
   wp ((match op with
        | BEq => let* d := depth_fuel in let* r := equals d la lb in alloc (HBool r)
        | BNotEq => let* d := depth_fuel in let* r := equals d la lb in alloc (HBool (negb r))
@@ -1391,7 +1475,7 @@ Lemma ebin_tail S0 S G e s op la lb ta tb t :
            end
        end) s) (epost S0 G e t).
 Proof.
-  intros E0 Hi Hla Hlb Hbin Hok Hs1. pose proof Hi as [Hh He].
+  intros E0 Hi Hla Hlb Hbin Hok. pose proof Hi as [Hh He].
   assert (EQ : forall b : bool, (op = BEq \/ op = BNotEq) ->
             wp ((let* d := depth_fuel in let* r := equals d la lb in alloc (HBool (if b then negb r else r))) s)
                (epost S0 G e t)).
@@ -1435,7 +1519,7 @@ Section ExprStep.
   Context (f : nat) (IHe : expr_sound f) (IHes : exprs_sound f) (IHc : call_sound f).
 
   Lemma eval_opt_wp P e o G S s :
-    etyo (p_funcs P) G o = true -> s1_opt o = true -> genv_ok G -> inv S G e s ->
+    etyo (p_funcs P) G o = true -> s1_opt strict o = true -> genv_ok G -> inv S G e s ->
     wp ((match o with
          | Some y => let* l := eval_expr f P e y in ret (Some l)
          | None => ret None
@@ -1452,7 +1536,7 @@ Section ExprStep.
   Lemma emap_go_wp P e G u :
     genv_ok G -> u <> TNone ->
     forall ps ts s S,
-      etyps (p_funcs P) G ps = Some ts -> forallb (ty_eqb u) ts = true -> s1_pairs ps = true -> inv S G e s ->
+      etyps (p_funcs P) G ps = Some ts -> forallb (ty_eqb u) ts = true -> s1_pairs strict ps = true -> inv S G e s ->
       wp ((fix go (ps : list (str * expr)) : M (list (str * loc)) :=
              match ps with
              | [] => ret []
@@ -1484,9 +1568,9 @@ Section ExprStep.
     intros P e x G t S s Hty Hs1 HG Hi.
     destruct x; cbn [eval_expr];
       (apply wp_bind; eapply tick_inv; [exact Hi|]; clear s Hi; intros s Hi); pose proof Hi as [Hh He].
-    - (* ENum *) inversion Hty; subst. eapply alloc_epost; [apply ext_refl|exact Hi|constructor|reflexivity].
-    - inversion Hty; subst. eapply alloc_epost; [apply ext_refl|exact Hi|constructor|reflexivity].
-    - inversion Hty; subst. eapply alloc_epost; [apply ext_refl|exact Hi|constructor|reflexivity].
+    - (* ENum *) inversion Hty; subst. eapply alloc_epost; [apply ext_refl|exact Hi|constructor|auto].
+    - inversion Hty; subst. eapply alloc_epost; [apply ext_refl|exact Hi|constructor|auto].
+    - inversion Hty; subst. eapply alloc_epost; [apply ext_refl|exact Hi|constructor|auto].
     - (* EVar *)
       cbn [ety] in Hty.
       destruct (negb (str_eqb name underscore) && opt_ty_eqb (slookup name G) t0 && ty_ann t0) eqn:E; [|discriminate].
@@ -1502,8 +1586,10 @@ Section ExprStep.
       apply opt_ty_eqb_eq in E1.
       wbind ltac:(eapply IHe; eauto). intros l s1 (S1 & E1' & Hi1 & Hl1).
       wbind ltac:(eapply load_wp; eauto; apply Hi1). intros v s2 [-> Hc].
-      destruct v; try (eapply alloc_epost; [exact E1'|exact Hi1|constructor; auto|reflexivity]).
-      inversion Hc; subst. discriminate.
+      assert (N1 : t0 <> TAny) by (intros ->; discriminate).
+      assert (N2 : t0 <> TNone) by (apply ty_value_not_none, ty_ann_value; auto).
+      destruct v; try (eapply alloc_epost; [exact E1'|exact Hi1|constructor; auto|auto]).
+      inversion Hc; subst. congruence.
     - (* EArr *)
       rewrite ety_EArr in Hty. rewrite s1_expr_EArr in Hs1. apply andb_true_iff in Hs1 as [Hs1a Hs1b].
       destruct es as [|x es].
@@ -1511,7 +1597,7 @@ Section ExprStep.
         inversion HF; subst.
         destruct t0; try discriminate.
         * destruct (ty_ann (TArr t0)) eqn:Ea; inversion Hty; subst.
-          eapply alloc_epost; eauto using ty_ann_s1in_ok1. constructor; constructor.
+          eapply alloc_epost; eauto using ty_ann_fr_ok1. constructor; constructor.
         * inversion Hty; subst. eapply alloc_epost; eauto. constructor.
       + destruct t0; try discriminate.
         destruct (etys (p_funcs P) G (x :: es)) as [ts|] eqn:Ets; [|discriminate].
@@ -1522,7 +1608,7 @@ Section ExprStep.
           induction ts; constructor; simpl in Ea1; apply andb_true_iff in Ea1 as [H1 H2]; auto.
           apply ty_eqb_eq in H1; subst. auto using ty_value_not_none. }
         wbind ltac:(eapply IHes; eauto). intros ls s1 (S1 & E1 & Hi1 & HF).
-        eapply alloc_epost; eauto using ty_ann_s1in_ok1.
+        eapply alloc_epost; eauto using ty_ann_fr_ok1.
         constructor. eapply Forall2_same_ty; eauto.
     - (* EMap *)
       rewrite ety_EMap in Hty. rewrite s1_expr_EMap in Hs1. apply andb_true_iff in Hs1 as [Hs1a Hs1b].
@@ -1531,7 +1617,7 @@ Section ExprStep.
       + cbn [bindM]. unfold bindM at 1. cbn [ret].
         destruct t0; try discriminate.
         * destruct (ty_ann (TMap t0)) eqn:Ea; inversion Hty; subst.
-          eapply alloc_epost; eauto using ty_ann_s1in_ok1, ext_refl. constructor; [apply Inv_oempty|constructor].
+          eapply alloc_epost; eauto using ty_ann_fr_ok1, ext_refl. constructor; [apply Inv_oempty|constructor].
         * inversion Hty; subst. eapply alloc_epost; eauto using ext_refl. constructor; reflexivity.
       + destruct t0; try discriminate.
         destruct (etyps (p_funcs P) G (p0 :: ps0)) as [ts|] eqn:Ets; [|discriminate].
@@ -1542,7 +1628,7 @@ Section ExprStep.
         { apply ty_ann_value in Ea2. simpl in Ea2. auto using ty_value_not_none. }
         wbind ltac:(eapply (emap_go_wp P e G t0 HG Hu (p0 :: ps0)); eauto).
         intros vals s1 (S1 & E1 & Hi1 & Hk1 & HF1).
-        eapply alloc_epost; eauto using ty_ann_s1in_ok1.
+        eapply alloc_epost; eauto using ty_ann_fr_ok1.
         constructor; simpl; auto.
         apply keys_nodup_NoDup in Ea3.
         unfold Inv, keys; simpl. rewrite Hk1. repeat split; auto.
@@ -1560,7 +1646,7 @@ Section ExprStep.
       wbind ltac:(eapply IHe; eauto). intros l s1 (S1 & E1 & Hi1 & Hl1).
       wbind ltac:(eapply load_wp; eauto; apply Hi1). intros v s2 [-> Hc].
       destruct op; destruct tx; try discriminate; inversion Hty; subst; inversion Hc; subst;
-        (eapply alloc_epost; [exact E1|exact Hi1|constructor|reflexivity]).
+        (eapply alloc_epost; [exact E1|exact Hi1|constructor|auto]).
     - (* EBin *)
       cbn [ety] in Hty. cbn [s1_expr] in Hs1.
       apply andb_true_iff in Hs1 as [Hs1 Hs1c]. apply andb_true_iff in Hs1 as [Hs1a Hs1b].
@@ -1568,7 +1654,7 @@ Section ExprStep.
       destruct (ety (p_funcs P) G x2) as [tb|] eqn:Eb; [|discriminate].
       destruct (opt_ty_eqb (bin_ty op ta tb) t0 && ty_ann t0) eqn:Ec; inversion Hty; subst.
       apply andb_true_iff in Ec as [Ec1 Ec2]. apply opt_ty_eqb_eq in Ec1.
-      pose proof (ty_ann_s1in_ok1 _ Ec2 Hs1a) as Hok.
+      pose proof (ty_ann_fr_ok1 _ Ec2 Hs1a) as Hok.
       wbind ltac:(eapply IHe; eauto). intros la s1 (S1 & E1 & Hi1 & Hla).
       wbind ltac:(eapply load_wp; eauto; apply Hi1). intros va0 s2 [-> Hva0].
       match goal with |- context [if ?c then ret la else _] => destruct c eqn:Esh end.
@@ -1635,8 +1721,10 @@ Section ExprStep.
       + wbind ltac:(eapply slice_bounds_wp; eauto). intros [a b] s4 ->.
         eapply (alloc_epost S S3); eauto using ext_trans. constructor.
       + wbind ltac:(eapply slice_bounds_wp; eauto). intros [a b] s4 ->.
-        apply wp_depth_fuel. simpl in Hs1a.
-        wbind ltac:(eapply mapM_copy_wp with (u := u); eauto using Forall_firstn, Forall_skipn, ty_s1in_not_none).
+        apply wp_depth_fuel.
+        assert (Hnu : u <> TNone).
+        { eapply (ok1_elem (TArr u) u); [left; reflexivity|]. eapply ho_tys; [exact Hh3|]; eauto. }
+        wbind ltac:(eapply mapM_copy_wp with (u := u); eauto using Forall_firstn, Forall_skipn).
         intros els' s5 (S5 & E5 & Hh5 & Hg5 & HF5).
         eapply (alloc_epost S S5); eauto using ext_trans.
         * eapply inv_step; eauto.
@@ -1662,8 +1750,9 @@ Section ExprStep.
       wbind ltac:(eapply IHe; eauto). intros la s1 (S1 & E1 & Hi1 & Hla).
       wbind ltac:(eapply load_wp; eauto; apply Hi1). intros va s2 [-> Hva]. inversion Hva; subst.
       destruct (ty_eqb (ty_shape u) (ty_shape t)) eqn:Esh; [|exact I].
-      apply assert_shape in Esh; auto. subst u.
-      apply wp_ret. exists S1; auto.
+      apply assert_shape in Esh; auto.
+      2:{ destruct (ok1_dyn _ (ho_tys _ _ (proj1 Hi1) _ _ H1)); congruence. }
+      subst u. apply wp_ret. exists S1; auto.
   Qed.
 End ExprStep.
 
@@ -1727,7 +1816,7 @@ Section CondsWt.
 End CondsWt.
 
 Fixpoint conds_s1 (cs : list (expr * list stmt)) : bool :=
-  match cs with [] => true | (c, b) :: r => s1_expr c && s1_stmts b && conds_s1 r end.
+  match cs with [] => true | (c, b) :: r => s1_expr strict c && s1_stmts strict b && conds_s1 r end.
 
 Lemma wt_stmt_SIf F ret il G conds els : wt_stmt F ret il G (SIf conds els) =
   if conds_wt F ret il G conds &&
@@ -1761,20 +1850,20 @@ Lemma wt_stmt_SFor F ret il G var vt r body : wt_stmt F ret il G (SFor var vt r 
       end.
 Proof. reflexivity. Qed.
 
-Lemma s1_stmt_SIf conds els : s1_stmt (SIf conds els) =
-  conds_s1 conds && match els with Some b => s1_stmts b | None => true end.
+Lemma s1_stmt_SIf conds els : s1_stmt strict (SIf conds els) =
+  conds_s1 conds && match els with Some b => s1_stmts strict b | None => true end.
 Proof. reflexivity. Qed.
-Lemma s1_stmt_SWhile c body : s1_stmt (SWhile c body) = s1_expr c && s1_stmts body.
+Lemma s1_stmt_SWhile c body : s1_stmt strict (SWhile c body) = s1_expr strict c && s1_stmts strict body.
 Proof. reflexivity. Qed.
-Lemma s1_stmt_SFor var vt r body : s1_stmt (SFor var vt r body) =
-      match var with Some _ => ty_s1 vt | None => true end
+Lemma s1_stmt_SFor var vt r body : s1_stmt strict (SFor var vt r body) =
+      match var with Some _ => fr_ty strict vt | None => true end
       && match r with
-         | RStep a b c => s1_opt a && s1_expr b && s1_opt c
-         | RExpr y => s1_expr y
+         | RStep a b c => s1_opt strict a && s1_expr strict b && s1_opt strict c
+         | RExpr y => s1_expr strict y
          end
-      && s1_stmts body.
+      && s1_stmts strict body.
 Proof. reflexivity. Qed.
-Lemma s1_stmt_SCallStmt name args : s1_stmt (SCallStmt name args) = mem_str name s1_builtins && s1_exprs args.
+Lemma s1_stmt_SCallStmt name args : s1_stmt strict (SCallStmt name args) = mem_str name s1_builtins && s1_exprs strict args.
 Proof. reflexivity. Qed.
 
 (* ---------- statements: invariant bookkeeping ---------- *)
@@ -2023,7 +2112,7 @@ Section StmtStep.
 
   Lemma if_go_wp P rt il els G :
     match els with
-    | Some body => is_some (wt_stmts (p_funcs P) rt il (push G) body) = true /\ s1_stmts body = true
+    | Some body => is_some (wt_stmts (p_funcs P) rt il (push G) body) = true /\ s1_stmts strict body = true
     | None => True
     end ->
     genv_ok G ->
@@ -2075,7 +2164,7 @@ Section StmtStep.
 
 
   Lemma num_wp P e1 x G1 S s :
-    ety (p_funcs P) G1 x = Some TNum -> s1_expr x = true -> genv_ok G1 -> inv S G1 e1 s ->
+    ety (p_funcs P) G1 x = Some TNum -> s1_expr strict x = true -> genv_ok G1 -> inv S G1 e1 s ->
     wp ((let* l := eval_expr f P e1 x in
          let* v := load l in
          match v with HNum y => Sem.ret y | _ => internal "expected number" end) s)
@@ -2088,18 +2177,21 @@ Section StmtStep.
   Qed.
 
   Lemma opt_num_expr F G o dflt :
-    etyo F G o = true -> s1_opt o = true ->
+    etyo F G o = true -> s1_opt strict o = true ->
     ety F G (match o with Some y => y | None => ENum dflt end) = Some TNum /\
-    s1_expr (match o with Some y => y | None => ENum dflt end) = true.
+    s1_expr strict (match o with Some y => y | None => ENum dflt end) = true.
   Proof. destruct o; simpl; intros H1 H2; auto. apply opt_ty_eqb_eq in H1; auto. Qed.
 
   Lemma zero_val_wp S s vt :
-    heap_ok S (st_heap s) -> ty_decl vt = true -> ty_s1 vt = true ->
+    heap_ok S (st_heap s) -> ty_decl vt = true -> fr_ty strict vt = true ->
     wp (zero_val vt s) (hpost S (st_globals s) (fun S' z => sfind S' z = Some vt)).
   Proof.
     intros Hh Hd Hs1.
     assert (Hok : ty_ok1 vt = true).
-    { unfold ty_decl in Hd. apply andb_true_iff in Hd as [_ Hd]. unfold ty_ok1. rewrite Hs1, Hd. reflexivity. }
+    { unfold ty_decl in Hd. apply andb_true_iff in Hd as [Hp Hd]. unfold ty_ok1, fr_ty in *.
+      destruct strict; [rewrite Hs1, Hd; reflexivity|].
+      apply orb_true_iff; left. clear -Hp. induction vt; simpl in *; auto; discriminate. }
+    unfold ty_decl in Hd. apply andb_true_iff in Hd as [Hp _].
     destruct vt; try discriminate; cbn [zero_val].
     - eapply wp_mono; [eapply alloc_wp; eauto; constructor|]. cbv beta.
       intros l s' (S' & E & H1 & H2 & H3). hdone S'.
@@ -2109,7 +2201,7 @@ Section StmtStep.
       intros l s' (S' & E & H1 & H2 & H3). hdone S'.
     - wbind ltac:(eapply (alloc_wp S s (HBool false) TBool); eauto; constructor).
       intros b s1 (S1 & E1 & Hh1 & Hb & Hg1).
-      eapply wp_mono; [eapply (alloc_wp S1 s1 (HAny TBool b) TAny); eauto; constructor; auto|]. cbv beta.
+      eapply wp_mono; [eapply (alloc_wp S1 s1 (HAny TBool b) TAny); eauto; constructor; auto; discriminate|]. cbv beta.
       intros l s' (S' & E & H1 & H2 & H3). hdone S'.
     - eapply wp_mono; [eapply (alloc_wp S s (HArr []) (TArr vt)); eauto; constructor; constructor|]. cbv beta.
       intros l s' (S' & E & H1 & H2 & H3). hdone S'.
@@ -2284,7 +2376,7 @@ Section StmtStep.
       set (named := match var with Some _ => Some vt | None => None end).
       set (fr0 := match var with Some v => [(v, vt)] | None => [] end).
       match type of Hwt with match ?rng with _ => _ end = _ => destruct rng as [t|] eqn:Erng; [|discriminate] end.
-      assert (HS : (forall v, var = Some v -> binder_ok v = true /\ vt = t /\ ty_decl vt = true /\ ty_s1 vt = true) /\
+      assert (HS : (forall v, var = Some v -> binder_ok v = true /\ vt = t /\ ty_decl vt = true /\ fr_ty strict vt = true) /\
                    (exists Gb, wt_stmts (p_funcs P) ret true (push (fr0 :: G)) body = Some Gb) /\ G' = G).
       { destruct var as [v|].
         - match type of Hwt with match (if ?c then _ else _) with _ => _ end = _ => destruct c eqn:Ec; [|discriminate] end.
@@ -2315,7 +2407,7 @@ Section StmtStep.
           destruct (PrimFloat.eqb c 0); [exact I|].
           wbind ltac:(eapply (bind_loopvar S3 G e s3 var vt); eauto).
           { intros v Hv. destruct (Hvar v Hv) as (Hb & -> & _). split; auto.
-            eapply wp_mono; [eapply alloc_wp; [apply Hi3|constructor|reflexivity]|]. cbv beta.
+            eapply wp_mono; [eapply alloc_wp; [apply Hi3|constructor|auto]|]. cbv beta.
             intros l s' (S' & E & H1 & H2 & H3). hdone S'. }
           intros e2 s4 (S4 & E4 & Hi4 & Hl4). apply wp_ret. exists S4. simpl.
           split; [eauto using ext_trans|]. split; [exact Hi4|]. split; auto.
@@ -2330,7 +2422,7 @@ Section StmtStep.
           + (* string *)
             wbind ltac:(eapply (bind_loopvar S1 G e s1 var vt); eauto).
             { intros v Hv0. destruct (Hvar v Hv0) as (Hb & -> & _). split; auto.
-              eapply wp_mono; [eapply alloc_wp; [apply Hi1|constructor|reflexivity]|]. cbv beta.
+              eapply wp_mono; [eapply alloc_wp; [apply Hi1|constructor|auto]|]. cbv beta.
               intros l0 s' (S' & E & Hx1 & Hx2 & Hx3). hdone S'. }
             intros e2 s4 (S4 & E4 & Hi4 & Hl4). apply wp_ret. exists S4. simpl.
             split; [eauto using ext_trans|]. split; [exact Hi4|]. split; auto.
@@ -2346,7 +2438,7 @@ Section StmtStep.
           + (* map *)
             wbind ltac:(eapply (bind_loopvar S1 G e s1 var vt); eauto).
             { intros v Hv0. destruct (Hvar v Hv0) as (Hb & -> & _). split; auto.
-              eapply wp_mono; [eapply alloc_wp; [apply Hi1|constructor|reflexivity]|]. cbv beta.
+              eapply wp_mono; [eapply alloc_wp; [apply Hi1|constructor|auto]|]. cbv beta.
               intros l0 s' (S' & E & Hx1 & Hx2 & Hx3). hdone S'. }
             intros e2 s4 (S4 & E4 & Hi4 & Hl4). apply wp_ret. exists S4. simpl.
             split; [eauto using ext_trans|]. split; [exact Hi4|]. split; auto.
@@ -2361,7 +2453,7 @@ Section StmtStep.
           + (* map, untyped {} *)
             wbind ltac:(eapply (bind_loopvar S1 G e s1 var vt); eauto).
             { intros v Hv0. destruct (Hvar v Hv0) as (Hb & -> & _). split; auto.
-              eapply wp_mono; [eapply alloc_wp; [apply Hi1|constructor|reflexivity]|]. cbv beta.
+              eapply wp_mono; [eapply alloc_wp; [apply Hi1|constructor|auto]|]. cbv beta.
               intros l0 s' (S' & E & Hx1 & Hx2 & Hx3). hdone S'. }
             intros e2 s4 (S4 & E4 & Hi4 & Hl4). apply wp_ret. exists S4. simpl.
             split; [eauto using ext_trans|]. split; [exact Hi4|]. split; auto.
@@ -2391,8 +2483,8 @@ Proof.
 Qed.
 
 (* ---------- whole runs ---------- *)
-Definition goes_wrong (o : outcome) : Prop :=
-  match o with OErr (EInternal _) | OErr (EHostCrash _) => True | _ => False end.
+Definition goes_wrong_s (o : outcome) : Prop :=
+  match o with OErr e => ~ safe_err e | _ => False end.
 
 Definition genv0 : tyenv := [global_frame0].
 
@@ -2410,9 +2502,9 @@ Qed.
 
 Lemma init_state_ok stop input ff ay : state_ok (init_state stop input ff ay).
 Proof.
-  destruct (heap_ok_alloc _ _ (HBool false) TBool heap_ok_empty (CBool _ false) eq_refl) as (E1 & H1 & F1).
-  destruct (heap_ok_alloc _ _ (HStr []) TStr H1 (CStr _ []) eq_refl) as (E2 & H2 & F2).
-  destruct (heap_ok_alloc _ _ (HNum (float_of_bits pi_bits)) TNum H2 (CNum _ _) eq_refl) as (E3 & H3 & F3).
+  destruct (heap_ok_alloc _ _ (HBool false) TBool heap_ok_empty (CBool _ false) ok1_TBool) as (E1 & H1 & F1).
+  destruct (heap_ok_alloc _ _ (HStr []) TStr H1 (CStr _ []) ok1_TStr) as (E2 & H2 & F2).
+  destruct (heap_ok_alloc _ _ (HNum (float_of_bits pi_bits)) TNum H2 (CNum _ _) ok1_TNum) as (E3 & H3 & F3).
   eexists. split; [exact H3|].
   unfold full, genv0. cbn [init_state st_globals app]. constructor; [|constructor].
   change global_frame0 with [(n_err, TBool); (n_errmsg, TStr); (s_ "pi", TNum)].
@@ -2436,10 +2528,10 @@ Proof.
   unfold wt_program, wt_top, genv0. destruct (wt_stmts (p_funcs P) None false _ (p_stmts P)); [eauto|discriminate].
 Qed.
 
-(* Soundness, Stage 1: a checked program of the fragment never goes wrong *)
-Theorem soundness_stage1 P :
-  wt_program P = true -> s1_program P = true ->
-  forall fuel s0, state_ok s0 -> ~ goes_wrong (fst (run_program fuel P s0)).
+(* Soundness, generic in [strict] *)
+Theorem soundness_generic P :
+  wt_program P = true -> s1_stmts strict (p_stmts P) = true ->
+  forall fuel s0, state_ok s0 -> ~ goes_wrong_s (fst (run_program fuel P s0)).
 Proof.
   intros Hwt Hs1 fuel s0 (S & Hi) Hbad.
   destruct (wt_program_top P Hwt) as (G' & Htop).
@@ -2459,8 +2551,8 @@ Qed.
    environment, an expression of static type t evaluates (if it returns) to a
    cell of dynamic type t in an extended store typing that still types heap
    and environment; no evaluation ends in an internal error or a host crash. *)
-Theorem preservation_stage1 : forall n P e x G t S s,
-  ety (p_funcs P) G x = Some t -> s1_expr x = true -> genv_ok G -> inv S G e s ->
+Theorem preservation_generic : forall n P e x G t S s,
+  ety (p_funcs P) G x = Some t -> s1_expr strict x = true -> genv_ok G -> inv S G e s ->
   match eval_expr n P e x s with
   | (Ok l, s') => exists S', ext S S' /\ inv S' G e s' /\ sfind S' l = Some t
   | (Er er, _) => safe_err er
@@ -2475,8 +2567,8 @@ Theorem any_cells_concrete S h l :
                 hget h i = Some v /\ cell_ok S v u.
 Proof.
   intros Hh Hl. destruct (ho_cells _ _ Hh _ _ Hl) as (v & Hg & Hc). inversion Hc; subst.
-  destruct (ho_cells _ _ Hh _ _ H0) as (v' & Hg' & Hc').
-  exists u, i, v'. repeat split; auto. intros ->; discriminate.
+  match goal with Hi : sfind S i = Some u |- _ => destruct (ho_cells _ _ Hh _ _ Hi) as (v' & Hg' & Hc') end.
+  exists u, i, v'. repeat split; auto.
 Qed.
 
 Theorem any_cells_only_at_any S h l u i :
@@ -2485,6 +2577,43 @@ Proof.
   intros Hh Hg t Hl. destruct (ho_cells _ _ Hh _ _ Hl) as (v & Hg' & Hc).
   rewrite Hg in Hg'; inversion Hg'; subst. inversion Hc; auto.
 Qed.
+
+End Sound.
+
+(* ---------- the two instances ---------- *)
+Definition goes_wrong (o : outcome) : Prop :=
+  match o with OErr (EInternal _) | OErr (EHostCrash _) => True | _ => False end.
+
+(* going wrong otherwise than by the stack overflow on a cyclic value *)
+Definition goes_wrong_badly (o : outcome) : Prop :=
+  match o with
+  | OErr (EInternal _) => True
+  | OErr (EHostCrash w) => ~ overflow_reason w
+  | _ => False
+  end.
+
+(* Stage 1 (strict fragment: `any` never inside a composite type): no run goes wrong *)
+Theorem soundness_stage1 P :
+  wt_program P = true -> s1_program P = true ->
+  forall fuel s0, state_ok true s0 -> ~ goes_wrong (fst (run_program fuel P s0)).
+Proof.
+  intros Hwt Hs1 fuel s0 Hs0 Hbad. apply (soundness_generic true P Hwt Hs1 fuel s0 Hs0).
+  destruct (fst (run_program fuel P s0)) as [| |er]; simpl in *; auto.
+  destruct er; simpl in *; auto. intros [H _]; discriminate.
+Qed.
+
+(* Stage 2 (every value type): the only way to go wrong is the stack overflow on a cyclic value *)
+Theorem soundness_stage2 P :
+  wt_program P = true -> s2_program P = true ->
+  forall fuel s0, state_ok false s0 -> ~ goes_wrong_badly (fst (run_program fuel P s0)).
+Proof.
+  intros Hwt Hs1 fuel s0 Hs0 Hbad. apply (soundness_generic false P Hwt Hs1 fuel s0 Hs0).
+  destruct (fst (run_program fuel P s0)) as [| |er]; simpl in *; auto.
+  destruct er; simpl in *; auto. intros [_ H]; auto.
+Qed.
+
+Definition preservation_stage1 := preservation_generic true.
+Definition preservation_stage2 := preservation_generic false.
 
 (* ---------- typeof ---------- *)
 (* the tag of the any cell built by an Any node is the node's annotation ... *)
